@@ -34,6 +34,21 @@ def float_end_to_end(chk: Check, n):
         loc = float(rng.choice([0.5, 3.0, -2.0, 100.0]))
         xc = rng.normal(loc, rng.uniform(0.2, 3), nc)
         xt = rng.normal(loc * rng.uniform(0.8, 1.3), rng.uniform(0.2, 3), nt)
+        special = None
+        if k % 6 == 3:
+            # a treatment group whose mean is EXACTLY zero (integer data summing to 0): "any finite values"
+            xt = rng.integers(-6, 7, nt).astype(float)
+            xt[-1] -= xt.sum()
+            if len(set(xt)) < 2:
+                xt[0] += 1
+                xt[1] -= 1
+            special = "treatment-mean-zero"
+        elif k % 6 == 5:
+            # a control mean hundreds of times smaller than its standard error: the relative interval overflows to
+            # +inf, everything absolute is ordinary
+            xc = np.array([-1.0, 1.0, 0.004] + [0.0] * (nc - 3 if nc > 3 else 0))[:max(nc, 3)]
+            nc = len(xc)
+            special = "control-mean-tiny"
         data = pa.table({"variant": [0] * nc + [1] * nt, "x": np.concatenate([xc, xt])})
         try:
             if k % 2:
@@ -75,8 +90,10 @@ def float_end_to_end(chk: Check, n):
                 exp = dict(statistic=z, pvalue=2 * st.norm.sf(abs(z)), effect_size_ci_lower=d - h,
                            effect_size_ci_upper=d + h)
         exp.update(control=mc, treatment=mt, effect_size=d, rel_effect_size=mt / mc - 1)
+        if special == "control-mean-tiny":
+            exp.pop("rel_effect_size")
         chk.case(("float", alt, ev, ut, nc, nt), nontrivial=False)
-        chk.branch("float-e2e")
+        chk.branch("float-e2e" + (":" + special if special else ""))
         for f, e in exp.items():
             g = getattr(res, f)
             if math.isinf(e) or math.isinf(g):
